@@ -119,6 +119,52 @@ def run(ctx):
         items.append(f'chk_new {qlit(X.hz(cf))} {qlit(X.hz(z.chan_bw))} {nchan} {ALIGN[al]} {qlit(tol)} {bobs(z)}')
         meta.append(dict(inp=inp, impl=dict(align=z.freq_align, f0=str(z.channel_freqs[0]))))
 
+    # public setters: a signal whose band attributes are re-assigned (after its labels were already read / it was already sliced)
+    # is still a radio signal -- its labels must follow the NEW band, and so must later slices
+    for k in range(ncons // 3):
+        cls = rng.choice(X.RADIO)
+        nchan, al, cf, bw = rand_band()
+        z = mk(cls, nchan, al, cf, bw)
+        _ = z.channel_freqs, z.max_freq
+        if rng.random() < 0.5:
+            _ = z[:, : max(1, nchan - 1)]
+        nchan2, al2, cf2, bw2 = rand_band()
+        what = rng.sample(['center_freq', 'chan_bw', 'freq_align'], rng.randint(1, 3))
+        if cls in ('BasebandSignal', 'DualPolarizationSignal') and 'chan_bw' in what:
+            what.remove('chan_bw')
+            what.append('center_freq')
+        while 'chan_bw' not in what and 'center_freq' in what and X.hz(cf2) / X.hz(z.chan_bw) > 2 ** 30:
+            cf2 = rand_freq(rng, -2, 10.5)
+        while 'chan_bw' in what and X.hz(cf2 if 'center_freq' in what else cf) / X.hz(bw2) > 2 ** 30:
+            bw2 = rand_freq(rng, 2, 9)
+        inp = dict(op='reassign', cls=cls, nchan=nchan, align=al, cf=str(cf), bw=str(bw), set=sorted(set(what)),
+                   new=dict(cf=str(cf2), bw=str(bw2), align=al2))
+        ctx.seen(inp, nontrivial=nchan >= 2)
+        ctx.count('reassign')
+        try:
+            if 'center_freq' in what:
+                z.center_freq = cf2
+            else:
+                cf2 = cf
+            if 'chan_bw' in what:
+                z.chan_bw = bw2
+            if 'freq_align' in what:
+                z.freq_align = al2
+            else:
+                al2 = al
+        except Exception as e:
+            ctx.fail('setter_raised', inp, impl=repr(e))
+            continue
+        tol = tol_for(X.hz(cf2), X.hz(z.chan_bw), nchan)
+        items.append(f'chk_new {qlit(X.hz(cf2))} {qlit(X.hz(z.chan_bw))} {nchan} {ALIGN[al2]} {qlit(tol)} {bobs(z)}')
+        meta.append(dict(inp=inp, impl=dict(align=z.freq_align, f0=str(z.channel_freqs[0]))))
+        if nchan >= 2:
+            a = rng.randint(0, nchan - 1)
+            b = rng.randint(a + 1, nchan)
+            y = z[:, a:b]
+            items.append(f'chk_slices {qlit(X.hz(cf2))} {qlit(X.hz(z.chan_bw))} {nchan} {ALIGN[al2]} [(Some {a}, Some {b})] {qlit(tol)} {bobs(z)} (Some {bobs(y)}) {a}')
+            meta.append(dict(inp=dict(inp, then_slice=[a, b]), impl=dict(nchan=y.nchan, cf=str(y.center_freq), align=y.freq_align)))
+
     def rb(n):
         r = rng.random()
         if r < 0.25:
